@@ -207,3 +207,94 @@ Proof.
     destruct (fnum_mid _ Hq1 Hq2) as [y2 [E3 [D1 D2]]]. rewrite E3. cbn [bindR py_round_fl].
     f_equal. apply rhe_near. apply Qabs_Qlt_condition. unfold U in *. set (v := y1 * q2) in *. split; nra.
 Qed.
+
+(* ---- the same chains when x*k is NOT a whole number: the result is within 3/4 of the exact product, i.e. it is
+   one of the two integers nearest to it (1/2 from round(), < 1/4 from at most three binary64 roundings below 2^49) *)
+Definition XLO : Q := 1 # 1000000000.
+Definition P49 : Q := 562949953421312 # 1.
+
+Lemma mul_le_l a b k : 0 <= k -> a <= b -> a * k <= b * k.
+Proof. intros. apply Qmult_le_compat_r; assumption. Qed.
+
+Lemma chain1f (k : Z) (kq : Q) x :
+  fl_of_Z k = FNum kq -> 1 <= kq -> kq <= 100000000 # 1 ->
+  (x == 0 \/ XLO <= x) -> x * kq < P49 ->
+  exists N, r_id (r_round (r_fmul (Ok (fnum x)) k)) = Ok N /\ Qabs (inject_Z N - x * kq) <= 3 # 4.
+Proof.
+  intros Hk Hk1 Hk2 Hx Hlt. unfold r_id, r_round, r_fmul. cbn [bindR]. rewrite Hk. unfold XLO, P49 in *.
+  destruct Hx as [E0|Hlo].
+  - rewrite (fnum_zero _ E0). cbn [fmul].
+    assert (Hz : 0 * kq == 0) by ring. rewrite (fnum_zero _ Hz). cbn [bindR py_round_fl].
+    exists (round_half_even 0). split; [reflexivity|].
+    setoid_replace (inject_Z (round_half_even 0) - x * kq) with 0 by (rewrite E0; vm_compute; reflexivity).
+    vm_compute. discriminate.
+  - assert (Hk0 : 0 <= kq) by lra.
+    assert (Ht1 : x * 1 <= x * kq) by (rewrite !(Qmult_comm x); apply mul_le_l; lra).
+    assert (Hxlo : LO <= x) by (unfold LO; lra).
+    assert (Hxhi : x <= HI) by (unfold HI; lra).
+    destruct (fnum_mid x Hxlo Hxhi) as [y0 [E1 [B1 B2]]]. rewrite E1. cbn [fmul].
+    unfold U in *.
+    pose proof (mul_le_l _ _ kq Hk0 B1) as Hwa. pose proof (mul_le_l _ _ kq Hk0 B2) as Hwb.
+    assert (Ea : (x - x * (1 # 9007199254740992)) * kq == x * kq - x * kq * (1 # 9007199254740992)) by ring.
+    assert (Eb : (x + x * (1 # 9007199254740992)) * kq == x * kq + x * kq * (1 # 9007199254740992)) by ring.
+    rewrite Ea in Hwa. rewrite Eb in Hwb. clear Ea Eb.
+    set (t := x * kq) in *. set (w := y0 * kq) in *.
+    assert (Hp1 : LO <= w) by (unfold LO; lra).
+    assert (Hp2 : w <= HI) by (unfold HI; lra).
+    destruct (fnum_mid _ Hp1 Hp2) as [y1 [E2 [C1 C2]]]. rewrite E2. cbn [bindR py_round_fl].
+    unfold U in *.
+    exists (round_half_even y1). split; [reflexivity|].
+    pose proof (rhe_err y1) as He. apply Qabs_Qle_condition in He as [He1 He2].
+    set (n := inject_Z (round_half_even y1)) in *.
+    apply Qabs_Qle_condition. split; lra.
+Qed.
+
+Lemma chain2f (k1 k2 : Z) (q1 q2 : Q) x :
+  fl_of_Z k1 = FNum q1 -> fl_of_Z k2 = FNum q2 ->
+  1 <= q1 -> q1 <= 100000 # 1 -> 1 <= q2 -> q2 <= 1000 # 1 ->
+  (x == 0 \/ XLO <= x) -> x * q1 * q2 < P49 ->
+  exists N, r_id (r_round (r_fmul (r_fmul (Ok (fnum x)) k1) k2)) = Ok N /\
+            Qabs (inject_Z N - x * q1 * q2) <= 3 # 4.
+Proof.
+  intros Hk1 Hk2 Ha1 Ha2 Hb1 Hb2 Hx Hlt. unfold r_id, r_round, r_fmul. cbn [bindR]. rewrite Hk1, Hk2.
+  unfold XLO, P49 in *.
+  destruct Hx as [E0|Hlo].
+  - rewrite (fnum_zero _ E0). cbn [fmul].
+    assert (Hz : 0 * q1 == 0) by ring. rewrite (fnum_zero _ Hz). cbn [fmul bindR].
+    assert (Hz2 : 0 * q2 == 0) by ring. rewrite (fnum_zero _ Hz2). cbn [bindR py_round_fl].
+    exists (round_half_even 0). split; [reflexivity|].
+    setoid_replace (inject_Z (round_half_even 0) - x * q1 * q2) with 0 by (rewrite E0; vm_compute; reflexivity).
+    vm_compute. discriminate.
+  - assert (Hq10 : 0 <= q1) by lra. assert (Hq20 : 0 <= q2) by lra.
+    assert (Ht1 : x * 1 <= x * q1) by (rewrite !(Qmult_comm x); apply mul_le_l; lra).
+    assert (Ht2 : x * q1 * 1 <= x * q1 * q2).
+    { rewrite !(Qmult_comm (x * q1)). apply mul_le_l; [|lra]. lra. }
+    assert (Hxlo : LO <= x) by (unfold LO; lra).
+    assert (Hxhi : x <= HI) by (unfold HI; lra).
+    destruct (fnum_mid x Hxlo Hxhi) as [y0 [E1 [B1 B2]]]. rewrite E1. cbn [fmul].
+    unfold U in *.
+    pose proof (mul_le_l _ _ q1 Hq10 B1) as Hwa. pose proof (mul_le_l _ _ q1 Hq10 B2) as Hwb.
+    assert (Ea : (x - x * (1 # 9007199254740992)) * q1 == x * q1 - x * q1 * (1 # 9007199254740992)) by ring.
+    assert (Eb : (x + x * (1 # 9007199254740992)) * q1 == x * q1 + x * q1 * (1 # 9007199254740992)) by ring.
+    rewrite Ea in Hwa. rewrite Eb in Hwb. clear Ea Eb.
+    set (z := x * q1) in *. set (w := y0 * q1) in *.
+    assert (Hp1 : LO <= w) by (unfold LO; lra).
+    assert (Hp2 : w <= HI) by (unfold HI; lra).
+    destruct (fnum_mid _ Hp1 Hp2) as [y1 [E2 [C1 C2]]]. rewrite E2. cbn [fmul bindR].
+    unfold U in *.
+    assert (Hy1a : z - z * (21 # 90071992547409920) <= y1) by lra.
+    assert (Hy1b : y1 <= z + z * (21 # 90071992547409920)) by lra.
+    pose proof (mul_le_l _ _ q2 Hq20 Hy1a) as Hva. pose proof (mul_le_l _ _ q2 Hq20 Hy1b) as Hvb.
+    assert (Ec : (z - z * (21 # 90071992547409920)) * q2 == z * q2 - z * q2 * (21 # 90071992547409920)) by ring.
+    assert (Ed : (z + z * (21 # 90071992547409920)) * q2 == z * q2 + z * q2 * (21 # 90071992547409920)) by ring.
+    rewrite Ec in Hva. rewrite Ed in Hvb. clear Ec Ed.
+    set (t := z * q2) in *. set (v := y1 * q2) in *.
+    assert (Hq1 : LO <= v) by (unfold LO; lra).
+    assert (Hq2 : v <= HI) by (unfold HI; lra).
+    destruct (fnum_mid _ Hq1 Hq2) as [y2 [E3 [D1 D2]]]. rewrite E3. cbn [bindR py_round_fl].
+    unfold U in *.
+    exists (round_half_even y2). split; [reflexivity|].
+    pose proof (rhe_err y2) as He. apply Qabs_Qle_condition in He as [He1 He2].
+    set (n := inject_Z (round_half_even y2)) in *.
+    apply Qabs_Qle_condition. split; lra.
+Qed.
